@@ -44,8 +44,26 @@ MANIFEST = {
     "technique": "Coq/Coquelicot proof that every differentiation rule regenerated from Atom's source is the true derivative; "
                  "induction over expression trees; scatter-map placement lemmas; bit-exact/tolerance PrimFloat correspondence "
                  "through Simultaneous.systemize(), steady() and simulate(method='stacked_time')",
-    "level_text": "see props/C02.v",
-    "level_note": "Trusted: Coq kernel + vm_compute; Coquelicot; translator/aldi.py; harness; Reals axioms.",
+    "level_text": "Theorems (props/C02.v, over Coq's reals with Coquelicot's is_derive): every differentiation rule of class Atom, "
+                  "regenerated from the source text on every run (neg, +, -, *, / in Atom x Atom, Atom x number and reflected forms; "
+                  "power with a numeric, integer or expression exponent; log, exp, sqrt, logistic; maximum with a numeric or an "
+                  "expression floor; minimum: proved unreachable or correct), returns the value and the true derivative whenever its "
+                  "operands are differentiable (domain: non-zero denominators, positive log/sqrt arguments, positive base or non-zero "
+                  "base with a literal integer exponent, away from the max/min kink).  By induction over ALL expression trees of the "
+                  "model language and for every differentiable curve of evaluation points, the evaluator returns the residual and its "
+                  "derivative along the curve, or rejects (TypeError); corollaries: partial derivative w.r.t. any token occurrence, "
+                  "w.r.t. its logarithm for log-variables, w.r.t. steady (log-)level and (log-)change; 0 for tokens not occurring.  Every "
+                  "name of the dispatch table is rejected on Atoms or has a proved rule.  Placement: for every list of equations, wrt "
+                  "tokens and columns (NoDup wrt lists), ArrayMap.static followed by M[lhs]=td[rhs] puts the diff row of token k of "
+                  "equation i into cell (i, column of the token) and leaves every other cell 0 (A, B with lagged columns, D, F, G, J, "
+                  "steady Jacobian); same for the stacked-time pattern (row i+n*j, column of the shifted spot).  The two-sided quotient "
+                  "used for user functions is the derivative of affine functions (_partial: only affine).  The rules for sqrt and "
+                  "maximum(expr, expr) as found in the unrepaired source are proved NOT to be derivatives (frozen copies).",
+    "level_note": "Trusted: Coq kernel + vm_compute; Coquelicot; translator/aldi.py (element-wise reading of numpy mask assignments); "
+                  "harness; Reals axioms (sig_forall_dec, sig_not_dec, functional_extensionality_dep, classic).  Modelled and tied by "
+                  "correspondence only: Python's operator protocol and numpy's TypeError on Atoms, independence of the components of "
+                  "the diff vector, the assembly of the three Jacobians.  Not modelled (falsifier only): SystemVectors construction, "
+                  "terminal-condition correction of the stacked-time Jacobian, non-affine user functions, float rounding.",
 }
 
 OFFERED = ["log", "exp", "sqrt", "abs", "logistic", "normal_cdf", "normal_pdf", "maximum", "minimum"]
@@ -565,7 +583,7 @@ def corr_maps(ctx, res: CorrResult):
     res.distribution["map_cases"] = len(cases)
     res.distribution["map_kinds"] = {k: sum(1 for c in cases if c["kind"] == k) for k in ("static", "B", "stacked")}
     res.distribution["map_nonempty"] = sum(1 for o in outs if o["entries"])
-    return sum(1 for o in outs if len(o["entries"]) >= 2)
+    return len({repr(c) for c, o in zip(cases, outs) if len(o["entries"]) >= 2})
 
 
 # ======================================================================================
@@ -649,7 +667,7 @@ def make_models(ctx, n, res, special_share=0.25):
 
 def corr_systemize(ctx, res: CorrResult, models):
     cases, texts = [], []
-    nontrivial = 0
+    nontrivial = set()
     for mm in models:
         o = impl_systemize(mm.m, mm.info)
         if "exc" in o:
@@ -666,7 +684,7 @@ def corr_systemize(ctx, res: CorrResult, models):
                       (len(info["meids"]), len(info["tv"])), (len(info["meids"]), len(info["mshocks"]))]
             exp = "(Some " + coq_list([coq_mat(_shape_fix(a, *sh)) for a, sh in zip(o["mats"], shapes)], sep=";\n      ") + ")"
             if sum(int(np.count_nonzero(a)) for a in o["mats"]) >= 3:
-                nontrivial += 1
+                nontrivial.add((spec_source(mm.spec), repr(sorted(mm.spec["values"].items()))))
         cases.append({"source": spec_source(mm.spec), "values": mm.spec["values"], "impl": "rejected" if "rejected" in o else "matrices"})
         texts.append(f"  (({coq_bool(exact)}, {coq_sys_case(info, mm.rho)}),\n   {exp})")
         res.distribution["exact_cases"] = res.distribution.get("exact_cases", 0) + int(exact)
@@ -684,7 +702,7 @@ def corr_systemize(ctx, res: CorrResult, models):
     res.distribution["systemize_models"] = len(cases)
     if cases:
         res.samples.append(cases[0])
-    return nontrivial
+    return len(nontrivial)
 
 
 # ---- steady ---------------------------------------------------------------------------
@@ -718,7 +736,7 @@ def steady_point(ev):
 
 def corr_steady(ctx, res: CorrResult, models):
     cases, texts = [], []
-    nontrivial = 0
+    nontrivial = set()
     for mm in models:
         if mm.spec.get("special") in REJECTED_SNIPPETS:
             continue
@@ -762,7 +780,7 @@ def corr_steady(ctx, res: CorrResult, models):
         else:
             Jc = f"(Some {coq_mat(J)})"
             if np.count_nonzero(J) >= 3:
-                nontrivial += 1
+                nontrivial.add((spec_source(mm.spec), repr(sorted(mm.spec["values"].items()))))
         exact = not any(tree_transcendental(t) for t in trees.values())
         order = [e.id for e in eqs]
         info2 = {"order": order, "trees": trees, "logs": mm.info["logs"]}
@@ -787,7 +805,9 @@ def corr_steady(ctx, res: CorrResult, models):
     res.evaluations += len(cases)
     res.distribution["steady_models"] = len(cases)
     res.distribution["steady_flat"] = sum(1 for c in cases if c["flat"])
-    return nontrivial
+    if cases:
+        res.samples.append(cases[0])
+    return len(nontrivial)
 
 
 # ---- stacked time -----------------------------------------------------------------------
@@ -829,10 +849,8 @@ def capture_stacked(m, spec, rng, nper, terminal):
 def corr_stacked(ctx, res: CorrResult, models):
     rng = ctx.rng
     cases, texts = [], []
-    nontrivial = 0
+    nontrivial = set()
     for mm in models:
-        if mm.spec.get("special") in REJECTED_SNIPPETS or mm.spec["ys"]:
-            pass
         m = mm.m.copy()
         nper = rng.randint(1, 3)
         try:
@@ -882,7 +900,7 @@ def corr_stacked(ctx, res: CorrResult, models):
                 continue
             Jc = f"(Some {coq_mat(J)})"
             if np.count_nonzero(J) >= 3:
-                nontrivial += 1
+                nontrivial.add((spec_source(mm.spec), repr(sorted(mm.spec["values"].items())), nper))
         exact = not any(tree_transcendental(t) for t in trees.values())
         order = list(info["teids"])
         p = coq_model_parts({"order": order, "trees": trees, "logs": info["logs"]}, rho)
@@ -903,7 +921,9 @@ def corr_stacked(ctx, res: CorrResult, models):
     run_shards(ctx, res, "stacked", shards)
     res.evaluations += len(cases)
     res.distribution["stacked_models"] = len(cases)
-    return nontrivial
+    if cases:
+        res.samples.append(cases[0])
+    return len(nontrivial)
 
 
 def correspondence(ctx) -> CorrResult:
@@ -978,8 +998,8 @@ def falsify_systemize(mm, fails, info_counts, key_prefix="systemize"):
     m, info = mm.m, mm.info
     o = impl_systemize(m, info)
     src = spec_source(mm.spec)
-    inp = {"source": src, "assign": mm.spec["values"]}
-    repro = "m = irispie.Simultaneous.from_string(source); m.assign(**assign); m.systemize()"
+    inp = {"source": src, "assign": mm.spec["values"], "flat": bool(mm.spec.get("flat", False))}
+    repro = "m = irispie.Simultaneous.from_string(source, flat=flat); m.assign(**assign); m.systemize()"
     if "rejected" in o:
         info_counts["rejected"] += 1
         return
@@ -1045,6 +1065,23 @@ def falsify_systemize(mm, fails, info_counts, key_prefix="systemize"):
             if q in kinds["tv"] and eid in info["meids"] and tok not in tvset:
                 fails.append(Failure(f"{key_prefix}:no-cell", f"occurrence {tok} in `{info['eqs'][eid].human}` has no column in G",
                                      inp, None, None, repro))
+    # the dynamic-identity rows appended to A, B, D: x_t(q, s) - x_{t-1}(q, s+1) = 0 for every non-leading entry
+    try:
+        with quiet():
+            sysm = m.systemize()
+        Af, Bf, Df = np.array(sysm.A), np.array(sysm.B), np.array(sysm.D)
+        want_rows = [(i, tv.index((q, s + 1))) for i, (q, s) in enumerate(tv) if (q, s + 1) in tvset]
+        ok_dyn = Af.shape[0] == nt + len(want_rows) and Bf.shape == Af.shape and Df.shape[0] == Af.shape[0]
+        if ok_dyn:
+            for r, (i, j) in enumerate(want_rows):
+                ea = np.zeros(len(tv)); ea[i] = 1.0
+                eb = np.zeros(len(tv)); eb[j] = -1.0
+                ok_dyn = ok_dyn and np.array_equal(Af[nt + r], ea) and np.array_equal(Bf[nt + r], eb) and not np.any(Df[nt + r])
+        if not ok_dyn:
+            fails.append(Failure(f"{key_prefix}:dynamic-identity", "the identity rows of A, B, D do not link x_t(q,s) to x_{t-1}(q,s+1)",
+                                 inp, [Af[nt:].tolist(), Bf[nt:].tolist()], "rows e_i / -e_j", repro))
+    except Exception:  # noqa
+        pass
     info_counts["systemize_models"] += 1
 
 
@@ -1119,13 +1156,16 @@ def falsify_steady(mm, fails, info_counts):
             "-> SteadyEvaluator.eval_jacob(init) vs central differences of eval_func"))
 
 
-def falsify_stacked(mm, rng, fails, info_counts):
+def falsify_stacked(mm, rng, fails, info_counts, force_terminal=None):
     if mm.spec.get("special") in REJECTED_SNIPPETS:
         return
     m = mm.m.copy()
     nper = rng.randint(1, 3)
     terminal = "data"
-    if rng.random() < 0.35 and mm.info["max_shift"] > 0:
+    if force_terminal:
+        terminal = force_terminal
+        nper = rng.randint(2, 4)
+    elif rng.random() < 0.35 and mm.info["max_shift"] > 0:
         try:
             with quiet():
                 m.steady()
@@ -1183,6 +1223,51 @@ def falsify_stacked(mm, rng, fails, info_counts):
             {"source": spec_source(mm.spec), "assign": mm.spec["values"], "periods": nper, "terminal": terminal},
             float(J[r, c]), float(W[r, c]),
             "m.simulate(db, span, method='stacked_time', terminal=...) -> evaluator.eval_jacob vs central differences of eval_func"))
+
+
+def gen_stable_spec(rng) -> dict:
+    """a small model with a known steady state x = m (so that it can be solved and simulated with terminal='first_order')"""
+    n = rng.randint(1, 2)
+    xs = [f"x{i}" for i in range(n)]
+    logs = [x for x in xs if rng.random() < 0.4]
+    means = {x: _dy(rng, 1.0, 2.0) for x in xs}
+    teqs = []
+    for i, x in enumerate(xs):
+        a = rng.choice([0.5, 0.25, 0.375]); b = rng.choice([0.125, 0.25, 0.1875])
+        o = xs[(i + 1) % n]
+        lead = rng.choice([1, 1, 2])
+        nl = rng.choice([f"0.125*({o} - {means[o]!r})*({x}[-1] - {means[x]!r})",
+                         f"0.25*(sqrt({o}/{means[o]!r}) - 1)", f"0.125*(maximum({o}, p0) - {means[o]!r})",
+                         f"0.125*log({o}[+1]/{means[o]!r})", f"0.0625*(({o}/{means[o]!r})^2 - 1)"])
+        teqs.append(f"{x} = {1 - a - b!r}*{means[x]!r} + {a!r}*{x}[-1] + {b!r}*{x}[{lead:+d}] + {nl} + e{i}")
+    values = {x: (means[x], 1.0 if x in logs else 0.0) for x in xs}
+    values["p0"] = 0.5
+    return {"xs": xs, "ps": ["p0"], "ys": [], "logs": logs, "teqs": teqs, "meqs": [], "values": values, "flat": True,
+            "stable": True}
+
+
+def falsify_terminal(ctx, fails, counts):
+    """stacked-time Jacobian including the terminal-condition correction (fords/terminators.py)"""
+    rng = ctx.rng
+    done = 0
+    for _ in range(ctx.scale(12, 300)):
+        spec = gen_stable_spec(rng)
+        try:
+            m = build_model(spec)
+            with quiet():
+                m.solve()
+            info = model_info(m)
+            arr, off = steady_data(m, info)
+        except HarnessError:
+            raise
+        except Exception:  # noqa
+            counts["terminal_setup_failed"] = counts.get("terminal_setup_failed", 0) + 1
+            continue
+        mm = SimpleNamespace(spec=spec, m=m, info=info, rho=None, arr=arr, off=off)
+        before = counts["stacked_models"]
+        falsify_stacked(mm, rng, fails, counts, force_terminal="first_order")
+        done += counts["stacked_models"] - before
+    counts["terminal_first_order_models"] = done
 
 
 WITNESSES = [
@@ -1277,6 +1362,7 @@ def falsify(ctx, hints):
         falsify_steady(mm, fails, counts)
     for mm in models[: ctx.scale(40, 1200)]:
         falsify_stacked(mm, rng, fails, counts)
+    falsify_terminal(ctx, fails, counts)
     user_function_checks(ctx, fails, counts)
     seen, uniq = set(), []
     for f_ in fails:
